@@ -50,6 +50,10 @@ def to_py(v):
         return {conc(k): to_py(x) for k, x in v["v"]}
     if t == "range":
         return range(v["a"], v["b"] + 1)
+    if t == "float":
+        return float(v["f"])
+    if t == "big":
+        return int(v["d"])
     raise ValueError(f"cannot concretise {v!r}")
 
 
